@@ -305,7 +305,7 @@ def out_hw(h, w, kh, kw, sh, sw, dh, dw, padding):
 
 
 def conv2d(net, rng, x, oc, k=(3, 3), s=(1, 1), d=(1, 1), padding="SAME", act="NONE", per_axis=None, bias=True,
-           out_dtype=None, wdtype=None, share=None):
+           out_dtype=None, wdtype=None, share=None, groups=1):
     n, h, w, c = x.shape
     if share is not None:      # reuse the filter (and bias) constants of an earlier convolution
         oh, ow = out_hw(h, w, k[0], k[1], s[0], s[1], d[0], d[1], padding)
@@ -319,7 +319,8 @@ def conv2d(net, rng, x, oc, k=(3, 3), s=(1, 1), d=(1, 1), padding="SAME", act="N
         per_axis = x.dtype != "uint8" and rng.random() < 0.5
     wscale = [_rs(rng, 0.001, 0.05) for _ in range(oc)] if per_axis else _rs(rng, 0.001, 0.05)
     wzp = [0] * oc if per_axis else (0 if wdtype == "int8" else rng.randrange(100, 156))
-    wt = net.tensor([oc, k[0], k[1], c], wdtype, wscale, wzp, _wdata(rng, [oc, k[0], k[1], c], wdtype), qdim=0)
+    # grouped convolution: the filters see c / groups input channels each (the schema has no field for it)
+    wt = net.tensor([oc, k[0], k[1], c // groups], wdtype, wscale, wzp, _wdata(rng, [oc, k[0], k[1], c // groups], wdtype), qdim=0)
     ins = [x, wt]
     if bias:
         bs = [x.scale * ws for ws in wscale] if per_axis else x.scale * wscale
@@ -593,7 +594,7 @@ SINGLE_KINDS = ["conv", "dw", "fc", "maxpool", "avgpool", "add", "sub", "mul", "
                 "mean_axis", "pool_big", "conv_stride_asym", "squeeze_expand", "ew16",
                 "concat_hw", "pad_conv", "fc_batch", "tconv_var", "resize_x", "ew_rank", "conv_big_kernel", "pool_then_ew",
                 "splitv", "slice_op", "unpack_pack", "sqdiff", "argmax", "quant_chain",
-                "mean_big", "pad_pool", "slice_masks", "dw_mult", "conv_1d", "exp", "rsqrt"]
+                "mean_big", "pad_pool", "slice_masks", "dw_mult", "conv_1d", "exp", "rsqrt", "conv_groups", "pool_global_stride", "shape_op"]
 
 
 def fam_single_op(rng, kind=None):
@@ -986,6 +987,25 @@ def fam_single_op(rng, kind=None):
             alpha = net.tensor(ashape, x.dtype, a_sc, a_zp, codes.reshape(ashape), name="prelu_alpha")
             y = net.tensor(list(x.shape), x.dtype, _rs(rng, 0.01, 0.3) if rng.random() < 0.7 else x.scale, _zp(rng, x.dtype))
             net.op("PRELU", [x, alpha], [y], {})
+        elif kind == "conv_groups":
+            g_ = rng.choice([2, 2, 4, 3])
+            cg = rng.choice([1, 2, 4, 8])
+            x.shape[3] = g_ * cg
+            y = conv2d(net, rng, x, g_ * rng.choice([1, 2, 4, 8]), rng.choice([(1, 1), (3, 3), (3, 3), (2, 3)]), rng.choice([(1, 1), (1, 1), (2, 2)]),
+                       padding=rng.choice(["SAME", "VALID"]) if min(x.shape[1:3]) >= 3 else "SAME", act=rng.choice(["NONE", "RELU", "RELU6"]),
+                       per_axis=rng.choice([True, False]) if x.dtype != "uint8" else False, bias=rng.random() < 0.8, groups=g_)
+        elif kind == "pool_global_stride":
+            # a pool whose window, stride and input extent coincide (stride beyond the hardware range, but a single window)
+            hh, ww = rng.choice([(4, 4), (5, 7), (7, 7), (8, 8), (6, 3), (1, 9)])
+            x.shape[1], x.shape[2] = hh, ww
+            y = pool(net, rng, x, rng.choice(["MAX_POOL_2D", "AVERAGE_POOL_2D"]), (hh, ww), (hh, ww), rng.choice(["VALID", "SAME"]))
+        elif kind == "shape_op":
+            # SHAPE of a tensor computed on the NPU, next to a consumer of that tensor
+            x = unary(net, rng, "RELU", x)
+            shp_t = net.tensor([len(x.shape)], "int32", None, None)
+            net.op("SHAPE", [x], [shp_t], dict(OutType=2))
+            y = pool(net, rng, x, "MAX_POOL_2D", (1, 1), (1, 1), "VALID")
+            net.output(shp_t)
         elif kind == "exp":
             # e^x of inputs in about [-8, 2]: the output scale covers the largest value
             x.scale, x.zp = _rs(rng, 0.01, 0.04), rng.choice([0, 60, 100, 127]) if x.dtype == "int8" else x.zp
